@@ -695,6 +695,75 @@ async fn run_op(env: Arc<Env>, task: String, op: Value) {
       let keep = op["keep_hex"].as_u64().unwrap_or(64) as usize;
       rec(&task, "ret", format!("\"op\":\"raw_read\",\"raw\":\"{}\",\"n\":{},\"eof\":{},\"hex\":\"{}\",\"t\":{}", rn, got.len(), eof, rzmq::verif::hex_prefix(&got, keep), ms(&env)));
     }
+    "raw_hb_peer" => {
+      // a raw ZMTP peer after its handshake: records every PING it receives (time, context) and,
+      // depending on `mode`, stays silent, answers with PONG (echoing the context), or keeps sending
+      // small data frames without ever answering. Ends at EOF or after `ms`.
+      let rn = op["raw"].as_str().unwrap_or("r").to_string();
+      let mode = op["mode"].as_str().unwrap_or("silent").to_string();
+      let dur = Duration::from_millis(op["ms"].as_u64().unwrap_or(2000));
+      let data_every = Duration::from_millis(op["data_every_ms"].as_u64().unwrap_or(100));
+      let start = Instant::now();
+      let mut next_data = start + data_every;
+      let mut acc: Vec<u8> = Vec::new();
+      let mut g = env.raws.lock().await;
+      if let Some(st) = g.get_mut(&rn) {
+        let mut buf = vec![0u8; 4096];
+        let mut k = 0u64;
+        loop {
+          let now = Instant::now();
+          if now >= start + dur {
+            rec(&task, "ret", format!("\"op\":\"hb_end\",\"raw\":\"{}\",\"eof\":false,\"t\":{}", rn, ms(&env)));
+            break;
+          }
+          let mut wait = start + dur - now;
+          if mode == "data" {
+            if now >= next_data {
+              k += 1;
+              let body = payload(&format!("hb:{}", k), 20);
+              let mut f = vec![0u8, body.len() as u8];
+              f.extend_from_slice(&body);
+              if st.write_all(&f).await.is_err() {
+                rec(&task, "ret", format!("\"op\":\"hb_end\",\"raw\":\"{}\",\"eof\":true,\"t\":{}", rn, ms(&env)));
+                break;
+              }
+              rec(&task, "ret", format!("\"op\":\"hb_act\",\"raw\":\"{}\",\"what\":\"data\",\"t\":{}", rn, ms(&env)));
+              next_data = now + data_every;
+            }
+            wait = wait.min(next_data.saturating_duration_since(Instant::now()).max(Duration::from_millis(1)));
+          }
+          match tokio::time::timeout(wait, st.read(&mut buf)).await {
+            Ok(Ok(0)) | Ok(Err(_)) => {
+              rec(&task, "ret", format!("\"op\":\"hb_end\",\"raw\":\"{}\",\"eof\":true,\"t\":{}", rn, ms(&env)));
+              break;
+            }
+            Ok(Ok(n)) => acc.extend_from_slice(&buf[..n]),
+            Err(_) => {}
+          }
+          // short frames only (commands are short)
+          while acc.len() >= 2 && (acc[0] & 0x02) == 0 && acc.len() >= 2 + acc[1] as usize {
+            let len = acc[1] as usize;
+            let fl = acc[0];
+            let body: Vec<u8> = acc[2..2 + len].to_vec();
+            acc.drain(..2 + len);
+            if fl & 0x04 != 0 && body.len() >= 7 && &body[..5] == b"\x04PING" {
+              let ctx_bytes = body[7..].to_vec();
+              rec(&task, "ret", format!("\"op\":\"hb_ping\",\"raw\":\"{}\",\"ctx\":\"{}\",\"t\":{}", rn, rzmq::verif::hex_prefix(&ctx_bytes, 32), ms(&env)));
+              if mode == "pong" {
+                let mut b = b"\x04PONG".to_vec();
+                b.extend_from_slice(&ctx_bytes);
+                let mut f = vec![0x04u8, b.len() as u8];
+                f.extend_from_slice(&b);
+                let _ = st.write_all(&f).await;
+                rec(&task, "ret", format!("\"op\":\"hb_act\",\"raw\":\"{}\",\"what\":\"pong\",\"t\":{}", rn, ms(&env)));
+              }
+            } else if fl & 0x04 != 0 && body.len() >= 5 && &body[..5] == b"\x04PONG" {
+              rec(&task, "ret", format!("\"op\":\"hb_pong\",\"raw\":\"{}\",\"ctx\":\"{}\",\"t\":{}", rn, rzmq::verif::hex_prefix(&body[5..], 32), ms(&env)));
+            }
+          }
+        }
+      }
+    }
     "raw_close" => {
       let rn = op["raw"].as_str().unwrap_or("r").to_string();
       let rst = op["rst"].as_bool().unwrap_or(false);
